@@ -19,7 +19,7 @@ except Exception:
 if schedx_part is not None and not all(hasattr(schedx_part, f) for f in ("correspond_x", "direct_x", "search_x")):
     schedx_part = None
 
-LEAK_LIMIT = 1 << 15          # bytes that may remain allocated at a successful exit (stdio, getopt, thread bookkeeping)
+LEAK_LIMIT = 4096             # bytes that may remain allocated at a successful exit (measured: 888 with one worker, 1184 otherwise)
 LIBC_SLACK = 1 << 20          # stdio buffers, per-thread allocator bookkeeping, getopt, ... (not modelled)
 
 
@@ -123,7 +123,7 @@ class Check(PropertyCheck):
         self.bnd = bnd
         table = {}
         for (kind, mb, n, ultra), m in self.meas:
-            table["%s/%dMB/n%d%s" % (kind, mb, n, "/seq" if ultra else "")] = {"peak": m["peak"], "bound": bnd.get((n, level)),
+            table["%s/%dMB/n%d%s" % (kind, mb, n, "/seq" if ultra else "")] = {"peak": m["peak"], "live_at_exit": m.get("live"), "bound": bnd.get((n, level)),
                                                                           "live_blocks_at_peak": m["blocks"], "rc": m["rc"]}
         cov = {"evaluations": len(results) + len(jobs), "distinct_nontrivial": len(nontriv) + len(jobs),
                "rule": "evaluations = traced runs replayed through the extracted scheduler model (tie of the model; non-trivial = "
@@ -185,7 +185,23 @@ class Check(PropertyCheck):
         quick = self.tier == "quick"
         inputs = [("%d rejected candidates" % k, sp.many_candidates(rng, k, 300)) for k in ((8, 32) if quick else (8, 32, 128))]
         inputs += [("%d small streams with a false magic each" % k, sp.gen_magic_bitmaps(rng, k)) for k in ((200, 800) if quick else (200, 800, 4000))]
+        # every feature of the format the crafting encoder knows (randomised blocks, 2..6 tables, unused tables, extra selectors,
+        # empty streams, several streams, trailing garbage), few and many blocks: nothing allocated per block may survive the block
+        import declib
+        for k in ((20, 80) if quick else (20, 80, 320)):
+            # concatenation of k valid files without trailing garbage (garbage would end the decoding)
+            data, plain, made = b"", b"", 0
+            while made < k:
+                blocks = [declib.bzcraft.valid_block(rng, 300) for _ in range(rng.choice([1, 1, 2, 3]))]
+                for b in blocks:
+                    if rng.chance(1, 2):
+                        b.rand = 1
+                data += declib.bzcraft.to_bytes(declib.bzcraft.stream(blocks, rng.range(1, 9), rng))
+                plain += b"".join(bytes(b.data) for b in blocks)
+                made += len(blocks)
+            inputs.append(("%d crafted blocks (half of them randomised)" % k, sp.Crafted("crafted-%d" % k, data, plain, True)))
         jobs = [(name, c, n, ig) for name, c in inputs for n in (2, 4, 8) for ig in (None, 64)]
+        jobs += [(name, c, 1, None) for name, c in inputs if name.endswith("randomised)")]
 
         def one(j):
             name, c, n, ig = j
